@@ -12,7 +12,7 @@ def run(tier):
     build_harness()
     # the abstract machine itself (all tokenisations of tiny inputs): TokenBound, Lossless
     c.add_mc(tlc_mc("MC_Tokenizer", "MC_Tokenizer_machine.cfg", wd, workers=8))
-    cfgs = ["MC_Tokenizer_in4.cfg"] if tier == "quick" else ["MC_Tokenizer_in5.cfg", "MC_Tokenizer_in6raw.cfg", "MC_Tokenizer_in6script.cfg"]
+    cfgs = ["MC_Tokenizer_in4.cfg", "MC_Tokenizer_frag4.cfg"] if tier == "quick" else ["MC_Tokenizer_in5.cfg", "MC_Tokenizer_in6raw.cfg", "MC_Tokenizer_in6script.cfg", "MC_Tokenizer_frag5.cfg"]
     total = 0
     for cfg in cfgs:
         cases = os.path.join(wd, cfg + ".cases.ndjson")
@@ -49,7 +49,8 @@ def run(tier):
     c.add_validation(v, cases_path=cases, behaviours=v["events"], boundary=("tok",))
     c.extra["random_inputs"] = v["events"]
     c.assumptions = ["exhaustive inputs: all strings up to length 4 (quick) / 5 (thorough) over a 16-symbol markup alphabet, up to 6 over two "
-                     "10/11-symbol alphabets that can spell raw-text elements; random inputs seeded by VERIF_SEED",
+                     "10/11-symbol alphabets that can spell raw-text elements, up to 4 (quick) / 5 (thorough) over a 15-symbol alphabet of FRAGMENTS (raw-text elements, partial end tags, "
+                     "script-data escapes, characters of 2 / 3 / 4 bytes, NUL); random inputs seeded by VERIF_SEED",
                      "token TYPES, tag names and raw texts are judged against the specification's Scan on the 26 lexeme-structured documents of BodyCases.tla only"]
     return c.finish(explanation="Tokenizer.tla is the abstract machine of a lossless, total tokenizer (contiguity, progress, sticky error, "
                                 "raw spans + remainder = input, at most one token per byte). TLC checks TokenBound/Lossless on the machine and enumerates "
